@@ -57,6 +57,17 @@ Section Engine.
     | _ => None
     end.
 
+  (* the documented clock advance of each operation: ELAPSE t by t; CAST by the first positive
+     delay its own `use` play announces; RESOLVE by the pending delay of the named skill among
+     the buffered events; USE and KEYDOWNSTOP by nothing *)
+  Definition advance (o : op) (buffered first_events : list Ev) : T :=
+    match o with
+    | ELAPSE t => t
+    | CAST _ => next_elapse first_events
+    | RESOLVE n => next_elapse (filter (fun e => name_eqb (ev_name e) n) buffered)
+    | USE _ | KEYDOWNSTOP _ => tzero
+    end.
+
   Record playlog := { pclock : T; pact : Act; pevents : list Ev; pck : Ck }.
   Record oplog := { lcmd : cmd; lplogs : list playlog; ldesc : option D; lprev : H }.
   Variable H0 : H.
